@@ -54,7 +54,9 @@ func (m *MethodEvaluator) isNotArgT(
 		return true
 	}
 
-	if t.IsTargetIdentifier("[") && methodT.IsEmptyDefineArgs() {
+	// `x.size[0]` indexes the result of a method without parameters; inside the
+	// parentheses of a call the bracket opens an argument
+	if t.IsTargetIdentifier("[") && methodT.IsEmptyDefineArgs() && !m.isParentheses {
 		m.parser.Unget()
 		return true
 	}
